@@ -309,3 +309,39 @@ Proof. intros. unfold read_area_alloc. cbv zeta. lia. Qed.
 Theorem read_area_alloc_orig_refuted :
   exists imglen off size, imglen = 100 /\ read_area_alloc_orig imglen off size = 2 ^ 32 - 1.
 Proof. exists 100, 0, (2 ^ 32 - 1). split; reflexivity. Qed.
+
+(* ---- FIT startup ACM data ---- *)
+
+Theorem sacm_parse_size_total b : total (sacm_parse_size b).
+Proof.
+  unfold sacm_parse_size, fit_sacm_size_offset.
+  destruct (24 >=? zlen b - 4) eqn:G; [apply total_err|].
+  destruct (zlen b <? 24) eqn:A; [exfalso; lia|].
+  destruct (zlen b - 24 <? 4) eqn:B; [exfalso; lia|].
+  apply total_ok.
+Qed.
+
+Theorem sacm_parse_total b : total (sacm_parse b).
+Proof.
+  unfold sacm_parse. cbv zeta.
+  destruct (zlen b <? sacm_common_size); [apply total_err|].
+  destruct (sacm_version _) as [[rest key]|]; [|apply total_err].
+  repeat (match goal with |- total (if ?c then _ else _) => destruct c end; try apply total_err);
+    apply total_ok.
+Qed.
+
+(* the user area handed back is a piece of the input: no more bytes than the input holds *)
+Theorem sacm_parse_user_bounded b s : sacm_parse b = Ok s -> zlen (sacm_user s) <= zlen b.
+Proof.
+  unfold sacm_parse. cbv zeta.
+  destruct (zlen b <? sacm_common_size) eqn:L; [discriminate|].
+  destruct (sacm_version _) as [[rest key]|]; [|discriminate].
+  destruct (negb _); [discriminate|].
+  destruct (zlen (zskipn sacm_common_size b) <? rest); [discriminate|].
+  destruct (sacm_common_size + rest <? _) eqn:S.
+  - destruct (zlen (zskipn rest (zskipn sacm_common_size b)) <? _) eqn:U; [discriminate|].
+    intros E. injection E as <-. cbn [sacm_user].
+    unfold zfirstn, zlen. rewrite firstn_length.
+    unfold zskipn. rewrite !skipn_length. lia.
+  - intros E. injection E as <-. cbn [sacm_user]. unfold zlen. cbn. lia.
+Qed.
